@@ -539,12 +539,7 @@ theorem updateOffsetTable_ok (g g' : Bytes) (w off len : Nat) (delta : Int) (o :
       (∀ v ∈ (tblEntries g w off len).map (patchEntry o delta), 0 ≤ v ∧ v < (256 ^ w : Nat)) ∧
       g' = writeAt g (off + 16) (encodeEntries w (((tblEntries g w off len).map (patchEntry o delta)).map Int.toNat)) := by
   unfold updateOffsetTable8 at h
-  have hp : pyRead g (off + 12) ((len : Int) - 12) = readAt g (off + 12) (len - 12) := by
-    unfold pyRead
-    have : ¬ ((len : Int) - 12 < 0) := by omega
-    simp only [this, ↓reduceIte]
-    congr 1; omega
-  simp only [hp] at h
+  simp only at h
   unfold tblEntries tblCnt tblData
   split at h
   · cases h
@@ -585,12 +580,7 @@ theorem updateTfhd_ok (g g' : Bytes) (off len : Nat) (delta : Int) (o : Nat) (hl
       g' = writeAt g (off + 16) (toBE 8 (patchEntry o delta (tfhdBaseAt g off len)).toNat)) ∧
     (¬ tfhdHasBase g off len → g' = g) := by
   unfold updateTfhd8 at h
-  have hp : pyRead g (off + 9) ((len : Int) - 9) = readAt g (off + 9) (len - 9) := by
-    unfold pyRead
-    have : ¬ ((len : Int) - 9 < 0) := by omega
-    simp only [this, ↓reduceIte]
-    congr 1; omega
-  simp only [hp] at h
+  simp only at h
   unfold tfhdHasBase tfhdBaseAt tfhdData
   split at h
   · cases h
@@ -1163,7 +1153,7 @@ theorem updateOffsetTable_hl8 (g : Bytes) (w off len : Nat) (delta : Int) (offse
   unfold updateOffsetTable updateOffsetTable8
   have e1 : off + 8 + 4 = off + 12 := by omega
   have e2 : off + 8 + 8 = off + 16 := by omega
-  have e3 : (len : Int) - (8 : Nat) - 4 = (len : Int) - 12 := by omega
+  have e3 : len - 8 - 4 = len - 12 := by omega
   rw [e1, e2, e3]
 
 theorem updateTfhd_hl8 (g : Bytes) (off len : Nat) (delta : Int) (offset : Nat) :
@@ -1171,7 +1161,7 @@ theorem updateTfhd_hl8 (g : Bytes) (off len : Nat) (delta : Int) (offset : Nat) 
   unfold updateTfhd updateTfhd8
   have e1 : off + 8 + 1 = off + 9 := by omega
   have e2 : off + 8 + 8 = off + 16 := by omega
-  have e3 : (len : Int) - (8 : Nat) - 1 = (len : Int) - 9 := by omega
+  have e3 : len - 8 - 1 = len - 9 := by omega
   rw [e1, e2, e3]
 
 theorem tableStep_eq8 (delta : Int) (offset : Nat) (t : Nat × PAtom) (h : t.2.dataoffset = t.2.offset + 8) :
@@ -1181,15 +1171,30 @@ theorem tableStep_eq8 (delta : Int) (offset : Nat) (t : Nat × PAtom) (h : t.2.d
   unfold tableStep tableStep8
   rw [hh, updateOffsetTable_hl8, updateTfhd_hl8]
 
-/-- on files whose visited table atoms have the ordinary 8-byte header, the save as the code does it
-now is the save the byte-level theorems are about -/
+/-- table atoms that are long enough and `Clear` of the replaced region do not start inside it: the filter of
+`__update_offsets` drops none of them -/
+theorem visitedIn_eq_visited (atoms : List PAtom) (o old : Nat) (hsz : TablesSized atoms)
+    (hc : ∀ t ∈ visited atoms, Clear o old t.2.offset t.2.length) : visitedIn atoms o old = visited atoms := by
+  unfold visitedIn
+  apply List.filter_eq_self.mpr
+  intro t ht
+  have h1 := hsz t ht
+  have h2 := hc t ht
+  unfold Clear at h2
+  simp only [decide_eq_true_eq]
+  omega
+
+/-- on files whose visited table atoms have the ordinary 8-byte header and avoid the replaced region, the save
+as the code does it now is the save the byte-level theorems are about -/
 theorem saveAt_eq_saveAt8 (f : Bytes) (atoms parents : List PAtom) (o old : Nat) (new : Bytes)
+    (hsz : TablesSized atoms) (hc : ∀ t ∈ visited atoms, Clear o old t.2.offset t.2.length)
     (h : ∀ t ∈ visited atoms, t.2.dataoffset = t.2.offset + 8) :
     saveAt f atoms parents o old new = saveAt8 f atoms parents o old new := by
   unfold saveAt saveAt8
-  have hs : ∀ delta, offsetSteps atoms delta o = offsetSteps8 atoms delta o := by
+  have hs : ∀ delta, offsetSteps atoms delta o old = offsetSteps8 atoms delta o := by
     intro delta
     unfold offsetSteps offsetSteps8
+    rw [visitedIn_eq_visited atoms o old hsz hc]
     split
     · rfl
     · split
